@@ -76,7 +76,11 @@ impl SocketRecv for DealerSocket {
                 Some((_peer_id, Ok(_))) => {
                     // Ignore non-message frames
                 }
-                Some((_peer_id, Err(e))) => {
+                Some((peer_id, Err(e))) => {
+                    // The connection is broken: forget the peer, like the other sockets do,
+                    // so that its stream is not polled (and the error reported) again and no
+                    // further message is routed to it.
+                    self.backend.peer_disconnected(&peer_id);
                     // Handle potential errors from the fair queue
                     return Err(e.into());
                 }
